@@ -454,6 +454,9 @@ class RandomTape:
         return seq[i]
 
 
+CD_VALUES = [0.0, 0.0, 0.25, 0.5, 1.0, 1.0, 2.0, 1e-300, 1e300, float("inf")]
+
+
 def enc_ind(x, cid):
     # c3hash: the hash of the individual's CURRENT vector (the model's Individual.__hash__ is hash(tuple(vector)), a function
     # of the vector as it is now); the implementation's own hash(x) is what set() uses - a hash that does not follow the
@@ -482,11 +485,12 @@ def run(ctx):
              "costs_signed_via_calc_signed_costs": 0, "calc_signed_costs_nonfinite_fallback": 0,
              "truncate_cases": 0, "truncate_with_duplicates": 0, "truncate_cut_inside_front": 0, "truncate_k_ge_distinct": 0,
              "truncate_on_reused_list_object": 0, "tournament_cases": 0, "tournament_by_rank": 0, "tournament_by_dominance": 0,
-             "tournament_by_coin": 0, "tournament_single": 0, "tournament_merged_populations": 0,
+             "tournament_by_coin": 0, "tournament_by_dominance_crowding": {}, "tournament_swarm_populations": {},
+             "tournament_merged_populations_with_arbitrary_crowding": 0, "tournament_single": 0, "tournament_merged_populations": 0,
              "populations_with_colliding_ids": 0, "populations_with_hash_collisions": 0, "duplicates": 0,
              "duplicates_with_other_costs": 0, "near_equal_vectors": 0, "other_number_representation": 0,
              "templates": {}, "pop_size_hist": {}, "objective_count_hist": {},
-             "histories": {"histories": 0, "generations": 0, "moves": {}, "vector_changes_in_place": 0, "vector_reassigned": 0,
+             "histories": {"histories": 0, "generations": 0, "generations_with_swarm_style_tournaments": 0, "moves": {}, "vector_changes_in_place": 0, "vector_reassigned": 0,
                            "pairs_distinct_then_equal": 0, "pairs_equal_then_distinct": 0,
                            "truncations_after_a_vector_change": 0, "truncations_after_a_vector_change_with_duplicates": 0,
                            "individuals_hashed_before_their_vector_changed": 0, "re_evaluations_in_place": 0,
@@ -625,6 +629,15 @@ def run(ctx):
             stats["tournament_by_rank"] += 1
         else:
             stats["tournament_by_dominance"] += 1
+            a, b = snapshot[smp[0]], snapshot[smp[1]]
+            if dominates(b.costs_signed, a.costs_signed):
+                a, b = b, a                                   # a dominates b
+            ca, cb = a.features.get("crowding_distance"), b.features.get("crowding_distance")
+            key = ("dominated_has_larger_crowding" if cb > ca else "dominated_has_smaller_crowding" if cb < ca else "equal_crowding")
+            stats["tournament_by_dominance_crowding"][key] = stats["tournament_by_dominance_crowding"].get(key, 0) + 1
+            if cb > ca and cb == float("inf"):
+                stats["tournament_by_dominance_crowding"]["dominated_has_infinite_crowding"] = \
+                    stats["tournament_by_dominance_crowding"].get("dominated_has_infinite_crowding", 0) + 1
         ctx.count(("to", tuple(cid[id(x)] for x in snapshot), tuple(smp or ()), coin,
                    tuple(tuple(float(v) for v in x.costs_signed) for x in keypop)), nontrivial=(len(keypop) >= 2))
         if smp is not None and coin is None and len(ctx.samples) < 4 and \
@@ -853,6 +866,13 @@ def run(ctx):
                 selector.fast_nondominated_sorting(swarm[:half])
                 selector.fast_nondominated_sorting(swarm[half:])
                 flush_calls()
+            elif rng.random() < 0.5:
+                # as PSOGA does: one front number for the whole swarm, crowding distances over the whole swarm
+                for x in swarm:
+                    x.features["front_number"] = 0
+                ops.crowding_distance(swarm)
+                flush_calls()
+                H["generations_with_swarm_style_tournaments"] += 1
             ops.random = tape
             try:
                 for _t in range(3):
@@ -953,6 +973,15 @@ def run(ctx):
             # 3. binary tournaments (same selector, same list object shuffled in place)
             if merged is not None:
                 set_features(pop, merged)
+                if rng.random() < 0.5:
+                    # ... with ARBITRARY crowding distances (the tournament must not look at them): drawn from a small set,
+                    # and in half of these populations infinite for every member that another member dominates
+                    spoil = rng.random() < 0.5
+                    for x in pop:
+                        x.features["crowding_distance"] = rng.choice(CD_VALUES)
+                        if spoil and any(dominates(y.costs_signed, x.costs_signed) for y in pop):
+                            x.features["crowding_distance"] = float("inf")
+                    stats["tournament_merged_populations_with_arbitrary_crowding"] += 1
             tape = RandomTape(rng)
             ops.random = tape
             try:
@@ -969,6 +998,38 @@ def run(ctx):
             finally:
                 ops.random = real_random
             set_features(pop, ranked)
+
+            # 3b. the tournament as artap's own PSOGA uses it (algorithm_swarm.py): ONE front number for the whole swarm
+            #     (individual_features['front_number'] = 0) and crowding distances computed by crowding_distance(swarm) over
+            #     the whole swarm, dominated particles included - so at equal front number one candidate may dominate the
+            #     other, and the dominated one may well sit in the less crowded region (boundary particles: inf).  In a
+            #     third of these populations the distances are then overwritten by arbitrary ones, infinite for every
+            #     dominated member (red team round 2: crowding compared before dominance)
+            if n >= 2 and rng.random() < 0.6:
+                const = rng.choice([0, 0, 1, 3])
+                for x in pop:
+                    x.features["front_number"] = const
+                ops.crowding_distance(pop)
+                flush_calls()
+                how = "crowding_distance(swarm)"
+                if rng.random() < 0.34:
+                    how = "arbitrary, infinite for the dominated"
+                    for x in pop:
+                        x.features["crowding_distance"] = rng.choice(CD_VALUES)
+                        if any(dominates(y.costs_signed, x.costs_signed) for y in pop):
+                            x.features["crowding_distance"] = float("inf")
+                stats["tournament_swarm_populations"][how] = stats["tournament_swarm_populations"].get(how, 0) + 1
+                tape = RandomTape(rng)
+                ops.random = tape
+                try:
+                    inp = list(pop)
+                    for _t in range(min(3 * n, 12)):
+                        if rng.random() < 0.5:
+                            rng.shuffle(inp)
+                        tournament_case(inp, tape, pop)
+                finally:
+                    ops.random = real_random
+                set_features(pop, ranked)
 
             # 4. crowding_distance called directly on arbitrary sub-lists (dominated members, ties, any order, distances
             #    left over from the earlier sorts), twice on the same list object
@@ -1006,7 +1067,9 @@ def run(ctx):
                 "one long-lived selector object; ranked by the real fast_nondominated_sorting; every crowding_distance call (per front, on "
                 "separately ranked halves, direct calls on arbitrary sub-lists carrying stale distances, the empty list), nondominated_truncate "
                 "for sizes 1..n+2 on one re-used list object shuffled in place with the observed set() order as oracle, "
-                "TournamentSelector.select with recorded random.sample/random.choice. (2) histories of 2..4 generations on 3..8 long-lived "
+                "TournamentSelector.select with recorded random.sample/random.choice - on the consistently ranked population, on halves ranked "
+                "separately (half of them with arbitrary crowding distances), and swarm style as PSOGA does (one front number for all, "
+                "crowding_distance over the whole swarm or arbitrary distances, infinite for the dominated members). (2) histories of 2..4 generations on 3..8 long-lived "
                 "Individual / IndividualSwarm / IndividualNSGAII objects in the box [0,1]^1..3: evaluate (new costs_signed list, in-place "
                 "update, calc_signed_costs), rank, truncate for 3 sizes (every individual is hashed), tournaments, then vectors change (in-place "
                 "element assignment, step + clamping onto a corner, whole-list assignment, aliased lists, sync, swap, near-equal, numpy "
